@@ -187,7 +187,7 @@ def safe_execute(check, scenario):
     return res
 
 
-def _run_chunk(cid, seed, tier, indices):
+def _run_chunk(cid, seed, tier, indices, keep_scenarios=False):
     check = get_check(cid)
     fleet = getattr(check, 'mode', 'pool') == 'fleet'
     if not fleet:
@@ -201,7 +201,7 @@ def _run_chunk(cid, seed, tier, indices):
                 scenario = check.generate(rng, idx, tier)
             except Exception as err:
                 out.append((idx, None, result(HARNESS_ERROR, invariant='generate', detail=''.join(
-                    traceback.format_exception(type(err), err, err.__traceback__))[-4000:])))
+                    traceback.format_exception(type(err), err, err.__traceback__))[-4000:]), 'none', None))
                 continue
             if not fleet:
                 # a single run that does not come back (a pathological case for the system under test or for the
@@ -215,7 +215,15 @@ def _run_chunk(cid, seed, tier, indices):
             finally:
                 if not fleet:
                     signal.setitimer(signal.ITIMER_REAL, 0)
-            out.append((idx, scenario, res))
+            sdig = digest(scenario)
+            if res['verdict'] == PASS and not keep_scenarios:
+                # keep the driver's memory flat over a million runs: a passed run is represented by its digests,
+                # its counters and (for the first few) a rendering for the evidence samples
+                res['events_tail'] = []
+                sample = check.describe(scenario) if idx < 8 else None
+                out.append((idx, None, res, sdig, sample))
+            else:
+                out.append((idx, scenario, res, sdig, check.describe(scenario) if idx < 8 else None))
     finally:
         if not fleet:
             faulthandler.cancel_dump_traceback_later()
@@ -431,8 +439,8 @@ def run_single(cid, tier, seed, out=sys.stdout, property_id=None):
                                     return_when=cf.FIRST_COMPLETED)
             for fut in done:
                 try:
-                    for idx, scen, res in fut.result():
-                        results[idx] = (scen, res)
+                    for idx, scen, res, sdig, sample in fut.result():
+                        results[idx] = (scen, res, sdig, sample)
                 except Exception as err:
                     harness.append('worker died on runs %s: %r' % (futs[fut][:3], err))
             if time.time() > deadline and pending:
@@ -456,19 +464,19 @@ def run_single(cid, tier, seed, out=sys.stdout, property_id=None):
     log_digest = hashlib.sha256()
     inconclusive = []
     for idx in sorted(results):
-        scen, res = results[idx]
+        scen, res, sdig, sample = results[idx]
         st = res.get('stats') or {}
         agg.execs += st.get('execs', 1)
         agg.faults.update(st.get('faults', {}))
         agg.probes.update(st.get('probes', {}))
         agg.counters.update(st.get('counters', {}))
         agg.states.update(st.get('states', []))
-        d = digest(scen)
+        d = sdig
         scen_digests.add(d)
         if st.get('nontrivial'):
             nontrivial_digests.add(d)
-            if len(samples) < 3:
-                samples.append({'run': idx, 'scenario': check.describe(scen), 'verdict': res['verdict']})
+            if len(samples) < 3 and sample is not None:
+                samples.append({'run': idx, 'scenario': sample, 'verdict': res['verdict']})
         log_digest.update(('%d:%s:%s;' % (idx, res['verdict'], res.get('digest'))).encode())
         if res['verdict'] == VIOLATION:
             entry = known_signature(findings, property_id, res.get('signature'))
@@ -495,10 +503,10 @@ def run_single(cid, tier, seed, out=sys.stdout, property_id=None):
             futs2 = [pool2.submit(_run_chunk, cid, seed, tier, [i]) for i in sample_idx]
             for fut in futs2:
                 try:
-                    for idx, scen, res in fut.result(timeout=check.run_timeout * 2 + 120):
+                    for idx, scen, res, sdig, sample in fut.result(timeout=check.run_timeout * 2 + 120):
                         det['seeds_rerun'] += 1
-                        a = (digest(scen), res['verdict'], res.get('digest'))
-                        b = (digest(results[idx][0]), results[idx][1]['verdict'], results[idx][1].get('digest'))
+                        a = (sdig, res['verdict'], res.get('digest'))
+                        b = (results[idx][2], results[idx][1]['verdict'], results[idx][1].get('digest'))
                         if a != b:
                             det['mismatches'] += 1
                             harness.append('non-deterministic run %d: %r vs %r' % (idx, a, b))
@@ -523,7 +531,7 @@ def run_single(cid, tier, seed, out=sys.stdout, property_id=None):
                     holder['pool'] = _pool(1, check)
                     return result(HARNESS_TIMEOUT, invariant='minimiser-candidate-timeout')
             for idx in violations:
-                scen, res = results[idx]
+                scen, res = results[idx][0], results[idx][1]
                 key = (res['invariant'], res.get('signature'))
                 if key in reported:
                     reported[key]['count'] += 1
